@@ -171,14 +171,41 @@ def run(ctx):
 
     scan_windows(ctx, ctx.budget(90, 2500))
     mgs_premises(ctx, ctx.budget(80, 2000))
+    length_safety(ctx, ctx.budget(240, 4000))
     import e3window   # E3: get_subgraph_between_topological_nodes == SubgraphBound.window_subgraph_opt (subgraph-scanning lower bound)
     e3window.run_window_e3(ctx, ctx.budget(150, 3000))
+
+
+def crossing_instance(rng, big):
+    """two weighted routes that cross in one node (after a common stretch), and a subpath constraint that enters the crossing
+    on one route and leaves it on the other, to be covered to a fraction that the second route alone achieves: any part of
+    the constraint seen in isolation (a scanning window) asks for more than the whole"""
+    import networkx as nx
+    G = nx.DiGraph(); G.graph["id"] = "crossing"
+    L = rng.randint(16, 19) if big else rng.randint(0, 4)
+    a, b = rng.sample([1, 2, 3, 4, 5, 6, 7], 2)
+    chain = [f"c{i:02d}" for i in range(L)]
+    for u, v in zip(chain, chain[1:]):
+        G.add_edge(u, v, flow=a + b)
+    heads = [chain[-1]] * 2 if chain else ["sa", "sb"]
+    ra = [heads[0], "a0", "m", "a1"] + (["a2"] if rng.random() < 0.5 else [])
+    rb = [heads[1], "b0", "m", "b1", "b2"] + (["b3"] if rng.random() < 0.5 else [])
+    if rng.random() < 0.5:
+        ra.append("t"); rb.append("t")
+    for r, w in ((ra, a), (rb, b)):
+        for e in zip(r, r[1:]):
+            G.add_edge(*e, flow=G.edges[e]["flow"] + w if G.has_edge(*e) else w)
+    kw = dict(flow_attr="flow", weight_type=int, solver_options={"threads": zoo.THREADS},
+              subpath_constraints=[[("a0", "m"), ("m", "b1"), ("b1", "b2")]], subpath_constraints_coverage=rng.choice([0.6, 0.5, 0.66]))
+    return {"class": "MinFlowDecomp", "G": G, "kwargs": kw, "node": False}
 
 
 def scan_instance(rng, big):
     """a conserving flow on a random DAG with isolated nodes, ignore sets biased to whole topological stretches, and
     (sometimes) a subpath constraint taken from a generating route"""
     import networkx as nx
+    if rng.random() < 0.2:
+        return crossing_instance(rng, big)
     n = rng.randint(23, 27) if big else rng.randint(5, 11)
     names = [f"n{i}" for i in range(n)]
     rng.shuffle(names)
@@ -222,11 +249,21 @@ def scan_instance(rng, big):
         for e in ign:
             G.edges[e]["flow"] = rng.randint(0, 9)               # an ignored value is arbitrary
         kw["elements_to_ignore"] = ign
-    if routes and rng.random() < 0.25:
-        r0 = rng.choice(routes)
-        if len(r0) >= 3:
-            i = rng.randrange(len(r0) - 2); j = rng.randint(i + 2, len(r0) - 1)
-            kw["subpath_constraints"] = [list(zip(r0[i:j], r0[i + 1:j + 1]))]
+    if routes and rng.random() < 0.6:
+        # constraints from ARBITRARY source-to-sink routes of the graph (they typically straddle scanning windows), sometimes
+        # with a relaxed coverage fraction
+        cons = []
+        for _ in range(rng.randint(1, 2)):
+            v = rng.choice(sorted(x for x in G.nodes() if G.in_degree(x) == 0 and G.out_degree(x) > 0)); r0 = [v]
+            while G.out_degree(v) > 0:
+                v = rng.choice(sorted(G.successors(v))); r0.append(v)
+            if len(r0) >= 3:
+                i = rng.randrange(len(r0) - 2); j = rng.randint(i + 2, len(r0) - 1)
+                cons.append(list(zip(r0[i:j], r0[i + 1:j + 1])))
+        if cons:
+            kw["subpath_constraints"] = cons
+            if rng.random() < 0.65:
+                kw["subpath_constraints_coverage"] = rng.choice([0.5, 0.5, 0.6, 0.75])
     return {"class": "MinFlowDecomp", "G": G, "kwargs": kw, "node": False}
 
 
@@ -258,6 +295,8 @@ def scan_windows(ctx, n):
         for vn, o in (("scan", dict(off, use_subgraph_scanning_lowerbound=True)),
                       ("scan+greedy", dict(off, use_subgraph_scanning_lowerbound=True, optimize_with_greedy=True)),
                       ("scan+min-gen-set", dict(off, use_subgraph_scanning_lowerbound=True, use_min_gen_set_lowerbound=True)),
+                      ("min-gen-set+partition-constraints", dict(off, use_min_gen_set_lowerbound=True, use_min_gen_set_lowerbound_partition_constraints=True,
+                                                                  use_min_gen_set_lowerbound_partition_constraints_min_constraint_len=1)),
                       ("scan+guessed-weights", dict(off, use_subgraph_scanning_lowerbound=True, optimize_with_guessed_weights=True)),
                       ("scan+safe-paths", dict(off, use_subgraph_scanning_lowerbound=True, optimize_with_safe_paths=True))):
             got = scan_outcome(info, o, (size, shift))
@@ -293,8 +332,15 @@ def mgs_premises(ctx, n):
         mfdmod.mgs.MinGenSet = Tap
         try:
             m = zoo.construct(info, opts); lb = m.get_lowerbound_k()
-        except ValueError:
-            ctx.dist("mgs-premises:ValueError"); continue
+        except ValueError as e:
+            mfdmod.mgs.MinGenSet = real
+            try:
+                zoo.construct(info, {"use_min_gen_set_lowerbound": False, "optimize_with_greedy": False}).get_lowerbound_k()
+            except ValueError:
+                ctx.dist("mgs-premises:ValueError"); continue         # the instance itself is rejected: not this option's doing
+            ctx.report(f"MinFlowDecomp.get_lowerbound_k() raises {e!r} with the min-gen-set lower bound on (partition constraints: {pc}); "
+                       "without the option the same input is accepted", {"instance": zoo.describe(info), "options": opts})
+            continue
         finally:
             mfdmod.mgs.MinGenSet = real
         G = info["G"]; ign = set(map(tuple, info["kwargs"].get("elements_to_ignore", [])))
@@ -346,3 +392,109 @@ def mgs_premises(ctx, n):
         if problems:
             ctx.report("the MinGenSet instance built for the lower bound does not meet the premises of C05_min_gen_set_option_is_sound: "
                        + "; ".join(problems), rep)
+
+
+def length_safety(ctx, n):
+    """safety options x subpath constraints from arbitrary routes x coverage by LENGTH (fraction below 1) or by relaxed edge
+    count, on the DAG decomposition and error classes: the constraint edges are then only partially required, which the
+    safety machinery (trusted edges, constraints extended to safe sequences, safety as subpath constraints) must respect"""
+    import flowpaths as fp
+    import gen
+    classes = ["kLeastAbsErrors", "kMinPathError", "MinFlowDecomp", "kFlowDecomp"]
+    for i in range(n):
+        rng = ctx.rng("lensafe", i)
+        name = classes[i % len(classes)]
+        G, paths, ws, is_int = gen2.rand_flow_dag(rng, nmax=rng.choice([5, 6, 7]), npaths=(2, 4), zero_edges=name in ("kLeastAbsErrors", "kMinPathError"))
+        allp = gen.all_st_paths(G)
+        cons = []
+        for _ in range(rng.randint(1, 2)):
+            p_ = rng.choice(allp); es = list(zip(p_, p_[1:]))
+            if len(es) >= 2:
+                n_ = min(len(es), rng.choice([2, 3, 3])); a_ = rng.randrange(0, len(es) - n_ + 1); cons.append(es[a_:a_ + n_])
+        if not cons:
+            continue
+        kw = dict(flow_attr="flow", weight_type=int if is_int else float, subpath_constraints=cons, solver_options={"threads": zoo.THREADS})
+        heavy = rng.random() < 0.7
+        if heavy:
+            # ONE long edge of a generating path carries the required fraction of the constraint's length; the rest of the
+            # constraint follows an arbitrary route, so the path that realises the constraint leaves it half-way
+            cons = []
+            for gp in rng.sample(paths, min(len(paths), 2)):
+                ges = list(zip(gp, gp[1:]))
+                if not ges:
+                    continue
+                # an edge of the generating path whose head offers ANOTHER way on than the generating path takes
+                cand = [(i_, e_) for i_, e_ in enumerate(ges)
+                        if [w_ for w_ in G.successors(e_[1]) if i_ + 1 >= len(ges) or w_ != ges[i_ + 1][1]]]
+                czero = [(i_, e_) for i_, e_ in cand if any(G.edges[e_[1], w_]["flow"] == 0 for w_ in G.successors(e_[1]))]
+                if czero and rng.random() < 0.7:
+                    cand = czero
+                if not cand:
+                    continue
+                i0, e0 = rng.choice(cand); tail = []
+                v = e0[1]
+                outs = sorted(w_ for w_ in G.successors(v) if i0 + 1 >= len(ges) or w_ != ges[i0 + 1][1])
+                zero = [w_ for w_ in outs if G.edges[v, w_]["flow"] == 0]          # a way on that no weight wants to take
+                w_ = rng.choice(zero if zero and rng.random() < 0.7 else outs); tail.append((v, w_)); v = w_
+                while G.out_degree(v) > 0 and rng.random() < 0.4:
+                    w_ = rng.choice(sorted(G.successors(v))); tail.append((v, w_)); v = w_
+                head = []
+                if rng.random() < 0.4 and G.in_degree(e0[0]) > 0:
+                    u_ = rng.choice(sorted(G.predecessors(e0[0]))); head = [(u_, e0[0])]
+                if tail or head:
+                    cons.append(head + [e0] + tail)
+            if not cons:
+                continue
+            for e in G.edges():
+                G.edges[e]["len"] = rng.choice([1, 1, 2, 5, 10])
+            # the fraction is what the edge shared with the generating path alone contributes (lengths elsewhere are arbitrary,
+            # so edges that a safety extension of the constraint would add may be long)
+            fr = []
+            for c in cons:
+                e0 = next(e for e in c if any(e in zip(gp, gp[1:]) for gp in paths))
+                G.edges[e0]["len"] = rng.choice([5, 10])
+            for c in cons:
+                e0 = next(e for e in c if any(e in zip(gp, gp[1:]) for gp in paths))
+                fr.append(G.edges[e0]["len"] / sum(G.edges[e]["len"] for e in c))
+            f0 = int(min(fr) * 100) / 100
+            if f0 < 0.2:
+                continue
+            kw["subpath_constraints"] = cons
+            kw["length_attr"] = "len"; kw["subpath_constraints_coverage_length"] = f0
+            ctx.count("E2_option_vectors", "partial_length_coverage_leaving_the_route")
+        elif rng.random() < 0.65:
+            for e in G.edges():
+                G.edges[e]["len"] = rng.choice([1, 2, 3, 5])
+            kw["length_attr"] = "len"; kw["subpath_constraints_coverage_length"] = rng.choice([0.3, 0.5, 0.6, 0.75])
+        else:
+            kw["subpath_constraints_coverage"] = rng.choice([0.5, 0.5, 0.75])
+        if name in ("kLeastAbsErrors", "kMinPathError") and rng.random() < 0.5:
+            for e in G.edges():
+                if rng.random() < 0.3:
+                    G.edges[e]["flow"] = max(0, G.edges[e]["flow"] + rng.choice([-1, 1, 2]) * (1 if is_int else 0.5))
+        if name != "MinFlowDecomp":
+            kw["k"] = max(1, len(set(map(tuple, paths))) + rng.choice([-1, -1, 0, 0, 1]))
+        info = {"class": name, "G": G, "kwargs": kw, "node": False}
+        off = {f: False for f in flags_for(name)}
+        ref = outcome(info, off)
+        ctx.case(["lensafe", zoo.describe(info)], nontrivial=ref[0] == "solved"); ctx.count("E2_option_vectors", "length_coverage_safety_cases")
+        ctx.dist("lensafe:" + name)
+        vecs = [("default", None),
+                ("safe-paths", dict(off, optimize_with_safe_paths=True)),
+                ("safe-sequences", dict(off, optimize_with_safe_sequences=True)),
+                ("safe-paths+safety-as-constraints", dict(off, optimize_with_safe_paths=True, optimize_with_safety_as_subpath_constraints=True)),
+                ("safe-sequences+safety-as-constraints", dict(off, optimize_with_safe_sequences=True, optimize_with_safety_as_subpath_constraints=True)),
+                ("safe-paths+constraints-as-safe-sequences+safety-as-constraints",
+                 dict(off, optimize_with_safe_paths=True, optimize_with_subpath_constraints_as_safe_sequences=True, optimize_with_safety_as_subpath_constraints=True)),
+                ("safe-sequences+constraints-as-safe-sequences+zero-edges",
+                 dict(off, optimize_with_safe_sequences=True, optimize_with_subpath_constraints_as_safe_sequences=True, optimize_with_safe_zero_edges=True))]
+        for vn, o in vecs:
+            if o is not None and incompatible(o):
+                continue
+            got = outcome(info, o)
+            ctx.count("E2_option_vectors", "runs")
+            if not same(ref, got):
+                ctx.report(f"{name}: option vector '{vn}' changes the result under partial constraint coverage: reference (all optimisations off) "
+                           f"{ref}, with options {got}",
+                           {"instance": zoo.describe(info), "options": o, "reference_options": off, "reference": list(ref), "got": list(got)})
+                break
